@@ -195,6 +195,8 @@ def c17_rf2(run):
     rf_alloc.rf2b(run)
     rf_alloc.rf78(run)
     run.min_instances('RF78', 30)
+    rf_alloc.rf78b(run, units=('gen', 'mir'))
+    run.min_instances('RF78b', 20)
 
 
 def c17_rf4(run):
